@@ -718,6 +718,7 @@ func (e *Engine) load(rels []string, externFiles []string, extraPkgs []string) e
 			e.pureFuncs[c.CalleeKey] = true
 		}
 	}
+	nonRetaining = func(name string) bool { return e.pureFuncs[name] || (name != "" && e.isRigid(name)) }
 	return nil
 }
 
